@@ -88,17 +88,23 @@ func (m *Machine) newSymStr(name string, max int, class int) *sym.Str {
 	s, bound := m.C.StrVar(name, max)
 	m.declInput(&InputDecl{Name: name, Kind: "str", Max: max, Str: s})
 	m.assertPC(bound)
-	m.assertPC(m.C.AllChars(s, m.classPred(class)))
+	// every character variable is drawn from the class alphabet, also the ones beyond the
+	// (symbolic) length: those are never part of the value, and with the unguarded
+	// constraint facts such as "this byte is ASCII" hold without knowing the length
+	pred := m.classPred(class)
+	all := m.C.T
+	for _, ch := range s.Ch {
+		all = m.C.And(all, pred(ch))
+	}
+	m.assertPC(all)
 	// the same fact as syntactic knowledge for the simplifier: domains of the live chars.
 	// (chars beyond the length are don't-care, restricting them too is harmless: they are
 	// never part of the value; we keep the solver-side constraint guarded and only give the
 	// simplifier the unguarded version for positions that are certainly live)
 	cp := classBytePred(class)
-	for i, ch := range s.Ch {
-		_ = i
-		m.domPending = append(m.domPending, domFact{ch, cp, s, i})
+	for _, ch := range s.Ch {
+		m.C.SetDomain(ch, cp)
 	}
-	m.flushDomains()
 	return s
 }
 
